@@ -172,7 +172,7 @@ def rooms(
         dtype=int,
     )
 
-    if len(y_splits) != len(set(y_splits)):
+    if np.any(np.diff(y_splits) < 2):
         raise ValueError(
             f'insufficient height ({shape.height}) for layout ({layout})'
         )
@@ -184,7 +184,7 @@ def rooms(
         dtype=int,
     )
 
-    if len(x_splits) != len(set(x_splits)):
+    if np.any(np.diff(x_splits) < 2):
         raise ValueError(
             f'insufficient width ({shape.width}) for layout ({layout})'
         )
@@ -546,7 +546,7 @@ def memory_rooms(
         dtype=int,
     )
 
-    if len(y_splits) != len(set(y_splits)):
+    if np.any(np.diff(y_splits) < 2):
         raise ValueError(
             f'insufficient shape.height ({shape.height}) for layout ({layout})'
         )
@@ -558,7 +558,7 @@ def memory_rooms(
         dtype=int,
     )
 
-    if len(x_splits) != len(set(x_splits)):
+    if np.any(np.diff(x_splits) < 2):
         raise ValueError(
             f'insufficient shape.width ({shape.width}) for layout ({layout})'
         )
